@@ -85,6 +85,7 @@ type ReqSpec struct {
 	Auth        string          `json:"auth,omitempty"`     // ok (default) | deny | err
 	After       []string        `json:"after,omitempty"`
 	Recipients  []string        `json:"recipients,omitempty"` // txsim
+	AfterCrash  bool            `json:"after_crash,omitempty"` // starts only after the simulated crash (e.g. a peer's redelivery)
 }
 
 func (r *RunSpec) Clone() *RunSpec {
